@@ -137,7 +137,6 @@ func runValOps(payload []*Sx) *Sx {
 		eqm, L(A("consistent"), bit(consistent)), L(A("immutable"), bit(immut)))
 }
 
-
 // setorder: (vals v...) -> members in the order MarshalJSON emits them (ascending slot order of the table).
 // Members are identified by their own JSON bytes, so nothing has to be decoded.
 func runSetOrder(payload []*Sx) *Sx {
